@@ -166,6 +166,9 @@ func genSlices(g *G) string {
 		k := g.n(L + 1)
 		g.P("c := append(base[:%d], 7, 8)", k)
 		g.P("println(\"c \" + ints(c) + \" all \" + ints(base[:cap(base)]))")
+		g.P("d := append(base[:cap(base)-1], 42)") // fills the backing array exactly: must still alias
+		g.P("d[0] = 123")
+		g.P("println(\"d \" + ints(d) + \" all \" + ints(base[:cap(base)]))")
 		g.P("full := append(base[:cap(base)], 5)")
 		g.P("full[0] = -1")
 		g.P("println(\"full \" + ints(full) + \" base0 \" + itoa(int64(base[0])))")
@@ -411,7 +414,7 @@ func genArrays(g *G) string {
 
 func genStructs(g *G) string {
 	S, In := g.T("S"), g.T("In")
-	switch g.n(6) {
+	switch g.n(7) {
 	case 0:
 		g.D("type %s struct {\n\tx, y int\n}", In)
 		g.D("type %s struct {\n\ta   int\n\tin  %s\n\tp   *%s\n\ttag string\n}", S, In, In)
@@ -484,6 +487,16 @@ func genStructs(g *G) string {
 		g.P("pe.n += 5")
 		g.P("println(\"sl \" + itoa(int64(sl[0].n)) + itoa(int64(sl[1].n)) + itoa(int64(e.n)))")
 		return "struct:in-slice"
+	case 5: // elided composite literal types, pointers to composite literals
+		g.D("type %s struct {\n\ta, b int\n}", S)
+		g.P("ps := []*%s{{1, 2}, {a: %d}}", S, g.n(9))
+		g.P("mm := map[string][]%s{\"k\": {{3, 4}}}", S)
+		g.P("aa := [...][2]int{{1, 2}, {3}}")
+		g.P("sp := &[]int{%s}", g.intList(3, 0, 9))
+		g.P("(*sp)[0] += ps[1].a")
+		g.P("var np *[4]int")
+		g.P("println(\"elided \" + itoa(int64(ps[0].b+ps[1].a)) + itoa(int64(mm[\"k\"][0].b)) + itoa(int64(len(aa)*10+aa[1][1])) + ints(*sp) + itoa(int64(len(np))))")
+		return "struct:elided-literals"
 	default: // function returning struct, chained field of call, new
 		g.D("type %s struct {\n\ta, b int\n}", S)
 		g.D("func %s(k int) %s { return %s{k, k * 2} }", g.T("mk"), S, S)
